@@ -75,6 +75,13 @@ func (s *StreamStats) RMS() float64 {
 // Combine updates s's statistics as if all samples added to o were
 // added to s.
 func (s *StreamStats) Combine(o *StreamStats) {
+	if o.Count == 0 {
+		return
+	}
+	if s.Count == 0 {
+		*s = *o
+		return
+	}
 	count := s.Count + o.Count
 
 	// Compute combined online variance statistics
